@@ -21,7 +21,8 @@ LEVEL_TEXT = ('A state is the full recursive snapshot (path, type, size, hash) o
               'listing orders for -d) is run through the real main(); the resulting snapshot must be one the effect model '
               'allows: identity for read-only modes, minus exactly one top-level file containing the id for -d, minus all '
               'top-level regular files for -D, plus only <file>.<entry id>.json in the output directory for -j.')
-LEVEL_NOTE = 'trees beyond the 7-entry menu, symlinks and special files are not explored; --clean ordering is C12'
+LEVEL_NOTE = ('trees beyond the menu are not explored; of the non-regular entries only a dangling symbolic link is included (a '
+              'FIFO would block every reading mode); --clean ordering is C12')
 RULE = ('initial states = all subsets of {T1_50000001, T2_50000002, T3_50000002.bak, other.txt, archive/T4_50000004, '
         'archive/T5_50000001, 50000001/ (directory), T6_00500A07 (id with leading zeros)}; transitions = 38 command templates; BFS to depth 2 (quick) or 3 '
         '(thorough) with snapshot deduplication. Non-trivial: transition whose model effect is not the identity, or any '
@@ -55,14 +56,21 @@ def bounds(tier):
             'listing_orders_for_delete': ['sorted', 'reversed']}
 
 
+LINK = ('pels/zz_last_archived', ('link', 'archive/T9_missing'))     # dangling symbolic link: not a regular file
+LINK_MASKS = [0, 255, 0b10001011, 0b00000100]
+
+
 def plan(tier, seed):
     ch = [{'k': 'bfs', 'mask': m, 'depth': 2 if tier == 'quick' else 3} for m in range(256)]
+    ch += [{'k': 'bfs', 'mask': m, 'link': True, 'depth': 2 if tier == 'quick' else 3} for m in LINK_MASKS]
     ch.append({'k': 'subproc'})
     return ch
 
 
-def initial_tree(mask):
+def initial_tree(mask, link=False):
     t = dict(FIXED)
+    if link:
+        t[LINK[0]] = LINK[1]
     for i, (path, content) in enumerate(MENU):
         if mask >> i & 1:
             parts = path.split('/')
@@ -73,7 +81,7 @@ def initial_tree(mask):
 
 
 def canon(tree):
-    return json.dumps(sorted((p, None if c is None else core.h8(c)) for p, c in tree.items()))
+    return json.dumps(sorted((p, None if c is None else 'link:' + c[1] if isinstance(c, tuple) else core.h8(c)) for p, c in tree.items()))
 
 
 def materialize(root, tree):
@@ -81,6 +89,9 @@ def materialize(root, tree):
         full = os.path.join(root, p)
         if tree[p] is None:
             os.makedirs(full, exist_ok=True)
+        elif isinstance(tree[p], tuple):
+            os.makedirs(os.path.dirname(full), exist_ok=True)
+            os.symlink(tree[p][1], full)
         else:
             os.makedirs(os.path.dirname(full), exist_ok=True)
             with open(full, 'wb') as f:
@@ -94,13 +105,18 @@ def read_tree(root):
         for d in dirs:
             t[os.path.normpath(os.path.join(rel, d))] = None
         for f in files:
-            with open(os.path.join(base, f), 'rb') as fh:
+            full = os.path.join(base, f)
+            if os.path.islink(full):
+                t[os.path.normpath(os.path.join(rel, f))] = ('link', os.readlink(full))
+                continue
+            with open(full, 'rb') as fh:
                 t[os.path.normpath(os.path.join(rel, f))] = fh.read()
     return t
 
 
-def top_files(tree, d='pels'):
-    return sorted(p for p, c in tree.items() if c is not None and os.path.dirname(p) == d)
+def top_files(tree, d='pels', links=False):
+    """regular files directly in d (links=True: also symbolic links, which a name match of --delete may pick)"""
+    return sorted(p for p, c in tree.items() if c is not None and os.path.dirname(p) == d and (links or not isinstance(c, tuple)))
 
 
 def model(before, cmd, after, stdout):
@@ -114,7 +130,7 @@ def model(before, cmd, after, stdout):
         e = cmd[1].upper()
         if e.startswith('0X'):
             e = e[2:]
-        cands = [p for p in top_files(before) if e in os.path.basename(p)] if len(e) == 8 else []
+        cands = [p for p in top_files(before, links=True) if e in os.path.basename(p)] if len(e) == 8 else []
         if added or changed:
             probs.append(('delete-side-effect', 'added %s changed %s' % (added, changed)))
         if not cands:
@@ -185,7 +201,7 @@ def rel_cmd(cmd):
 
 def eval_case(case):
     impl.ensure(False)
-    tree = initial_tree(case['mask'])
+    tree = initial_tree(case['mask'], case.get('link', False))
     for step in case['path']:
         r, tree = run_cmd(tree, COMMANDS[step[0]], step[1])
     cmd = COMMANDS[case['cmd']]
@@ -201,7 +217,7 @@ def run_chunk(chunk):
     if chunk['k'] == 'subproc':
         return _subproc(res)
     mask = chunk['mask']
-    init = initial_tree(mask)
+    init = initial_tree(mask, chunk.get('link', False))
     seen = {canon(init): []}
     frontier = collections.deque([(init, [])])
     trans = 0
@@ -213,7 +229,7 @@ def run_chunk(chunk):
                 r, after = run_cmd(tree, cmd, order)
                 trans += 1
                 probs = model(tree, rel_cmd(cmd), after, r.stdout)
-                case = {'mask': mask, 'path': path, 'cmd': ci, 'order': order}
+                case = {'mask': mask, 'path': path, 'cmd': ci, 'order': order, 'link': chunk.get('link', False)}
                 effect = canon(after) != canon(tree)
                 res.case(nontrivial_key=json.dumps(case) if (effect or path) else None,
                          outcome='bad:' + probs[0][0] if probs else ('changed:' if effect else 'same:') + cmd[0],
